@@ -1,0 +1,88 @@
+//go:build verif
+
+package peers
+
+import (
+	"context"
+	"time"
+
+	"github.com/benbjohnson/clock"
+	"github.com/libp2p/go-libp2p/core/peer"
+)
+
+// This file exists only under the `verif` build tag. It exposes the unexported pool (with its
+// cool-down queue) to the runtime-verification harness through a thin wrapper; it adds no
+// behaviour of its own.
+
+// Verif* status values mirror the unexported status constants.
+const (
+	VerifActive   = int(active)
+	VerifCooldown = int(cooldown)
+	VerifRemoved  = int(removed)
+)
+
+// VerifPool wraps a pool.
+type VerifPool struct{ p *pool }
+
+// NewVerifPool builds a real pool whose cool-down queue reads time from clk (nil keeps the real
+// clock). cleanupThreshold < 0 keeps the default.
+func NewVerifPool(ttl time.Duration, clk clock.Clock, cleanupThreshold int) *VerifPool {
+	p := newPool(ttl)
+	if clk != nil {
+		p.cooldown.clock = clk
+	}
+	if cleanupThreshold >= 0 {
+		p.cleanupThreshold = cleanupThreshold
+	}
+	return &VerifPool{p: p}
+}
+
+func (v *VerifPool) Add(ids ...peer.ID)                      { v.p.add(ids...) }
+func (v *VerifPool) Remove(ids ...peer.ID)                   { v.p.remove(ids...) }
+func (v *VerifPool) TryGet() (peer.ID, bool)                 { return v.p.tryGet() }
+func (v *VerifPool) Next(ctx context.Context) <-chan peer.ID { return v.p.next(ctx) }
+func (v *VerifPool) PutOnCooldown(id peer.ID)                { v.p.putOnCooldown(id) }
+func (v *VerifPool) Len() int                                { return v.p.len() }
+func (v *VerifPool) Has(id peer.ID) bool                     { return v.p.has(id) }
+func (v *VerifPool) Peers() []peer.ID                        { return v.p.peers() }
+
+// QueueLen is the number of items in the cool-down queue (taken under the queue's lock).
+func (v *VerifPool) QueueLen() int { return v.p.cooldown.len() }
+
+// LockKey is the key carried by the verifhook lock hand-over markers of this pool and its queue.
+func (v *VerifPool) LockKey() any { return v.p.cooldown }
+
+// VerifPoolSnapshot is a consistent copy of the pool's bookkeeping.
+type VerifPoolSnapshot struct {
+	Statuses         map[peer.ID]int
+	PeersList        []peer.ID
+	ActiveCount      int
+	NextIdx          int
+	HasPeer          bool
+	HasPeerChClosed  bool
+	CleanupThreshold int
+}
+
+// Snapshot copies the pool's state under the pool's own lock.
+func (v *VerifPool) Snapshot() VerifPoolSnapshot {
+	p := v.p
+	p.m.RLock()
+	defer p.m.RUnlock()
+	s := VerifPoolSnapshot{
+		Statuses:         make(map[peer.ID]int, len(p.statuses)),
+		PeersList:        append([]peer.ID(nil), p.peersList...),
+		ActiveCount:      p.activeCount,
+		NextIdx:          p.nextIdx,
+		HasPeer:          p.hasPeer,
+		CleanupThreshold: p.cleanupThreshold,
+	}
+	for id, st := range p.statuses {
+		s.Statuses[id] = int(st)
+	}
+	select {
+	case <-p.hasPeerCh:
+		s.HasPeerChClosed = true
+	default:
+	}
+	return s
+}
